@@ -192,7 +192,7 @@ theorem rotSegRest_vinv (st : State) (si : Nat) (d n : Int) (f : Bool) (seg : Se
     (∀ j, j ≠ si → st'.stream j = st.stream j) ∧
     (∀ sj id, sj ≠ si → lookupPath st'.paths (.part sj id) = lookupPath st.paths (.part sj id)) ∧
     VInv si st'.paths (st'.stream si).view ∧
-    (st'.stream si).nextPart.isSome := by
+    (st'.stream si).nextPart.isSome ∧ (st'.stream si).nextSegment.isSome := by
   intro st'
   obtain ⟨hc, hl, hoth, hview, hlook⟩ := rotSegRest_obs st si d n f seg _ hv hsi h2 rfl
   have hos : (st.stream si).view.openSeg = some (seg.id, seg.parts) := by simp [StreamSt.view, h2]
@@ -213,7 +213,7 @@ theorem rotSegRest_vinv (st : State) (si : Nat) (d n : Int) (f : Bool) (seg : Se
     obtain ⟨old, ho, hpo⟩ := droppedParts_mem _ _ _ hp
     exact hparts old ho p hpo
   have hne : segs1 ≠ [] := by rw [← hsegs']; simp [winAppend]
-  refine ⟨hc, hl, hoth, ?_, ?_, ?_⟩
+  refine ⟨hc, hl, hoth, ?_, ?_, ?_, ?_⟩
   · intro sj id hsj
     show lookupPath (rotSegRest st si d n f).paths _ = _
     rw [hlook]; simp [hsj]
@@ -285,6 +285,9 @@ theorem rotSegRest_vinv (st : State) (si : Nat) (d n : Int) (f : Bool) (seg : Se
   · rw [← view_openPart_isSome]
     show ((rotSegRest st si d n f).stream si).view.openPart.isSome = true
     rw [hview]; rfl
+  · rw [← view_openSeg_isSome]
+    show ((rotSegRest st si d n f).stream si).view.openSeg.isSome = true
+    rw [hview]; rfl
 
 /-- Frame rule: a step that touches only stream `si` (and only `.part si _` look-ups) preserves `Inv`
     once the invariant is re-established for `si`. -/
@@ -328,53 +331,128 @@ theorem create_inv (st : State) (si : Nat) (d n : Int) (hinv : Inv st) : Inv (cr
   · intro _
     rw [← view_openPart_isSome, hvw]; rfl
 
-theorem rotP_inv (st : State) (si : Nat) (d : Int) (hinv : Inv st) : Inv (rotatePartsStream st si d true) := by
+/-- what a single-stream step keeps besides `Inv` -/
+structure Keeps (st st' : State) : Prop where
+  inv : Inv st'
+  cfg : st'.cfg = st.cfg
+  len : st'.streams.length = st.streams.length
+  pres : ∀ j, (st'.stream j).nextSegment.isSome = (st.stream j).nextSegment.isSome
+
+theorem Keeps.rfl' {st : State} (h : Inv st) : Keeps st st := ⟨h, rfl, rfl, fun _ => rfl⟩
+
+theorem rotP_keeps (st : State) (si : Nat) (d : Int) (b : Bool) (hb : b = true) (hinv : Inv st) :
+    Keeps st (rotatePartsStream st si d b) := by
   by_cases hsi : si < st.streams.length
   · cases h1 : (st.stream si).nextPart with
-    | none => rw [rotatePartsStream_noop _ _ _ _ (.inl h1)]; exact hinv
+    | none => rw [rotatePartsStream_noop _ _ _ _ (.inl h1)]; exact .rfl' hinv
     | some part =>
       cases h2 : (st.stream si).nextSegment with
-      | none => rw [rotatePartsStream_noop _ _ _ _ (.inr h2)]; exact hinv
+      | none => rw [rotatePartsStream_noop _ _ _ _ (.inr h2)]; exact .rfl' hinv
       | some seg =>
-        obtain ⟨hc, hl, hoth, hlook, hv, _, _, hb⟩ :=
-          rotP_vinv st si d true part seg hinv.ll hsi h1 h2 (hinv.streams si hsi)
-        exact Inv.frame si hinv hc hl hoth hlook (fun _ => ⟨hv, fun _ => hb rfl⟩)
+        obtain ⟨hc, hl, hoth, hlook, hv, _, hs, hb'⟩ :=
+          rotP_vinv st si d b part seg hinv.ll hsi h1 h2 (hinv.streams si hsi)
+        refine ⟨Inv.frame si hinv hc hl hoth hlook (fun _ => ⟨hv, fun _ => hb' hb⟩), hc, hl, fun j => ?_⟩
+        by_cases e : j = si
+        · subst e; rw [hs, h2]; rfl
+        · rw [hoth j e]
   · have := stream_oob_default st si (Nat.le_of_not_lt hsi)
-    rw [rotatePartsStream_noop _ _ _ _ (.inl (by rw [this]))]; exact hinv
+    rw [rotatePartsStream_noop _ _ _ _ (.inl (by rw [this]))]; exact .rfl' hinv
 
-theorem rotS_inv (st : State) (si : Nat) (d n : Int) (f : Bool) (hinv : Inv st) :
-    Inv (rotateSegmentsStream st si d n f) := by
+theorem rotS_keeps (st : State) (si : Nat) (d n : Int) (f : Bool) (hinv : Inv st) :
+    Keeps st (rotateSegmentsStream st si d n f) := by
   rw [rotateSegmentsStream_eq]
   have hne : st.cfg.variant ≠ .mpegts := by rw [hinv.ll]; decide
   rw [if_pos hne]
   by_cases hsi : si < st.streams.length
   · cases h2 : (st.stream si).nextSegment with
     | none =>
-      rw [rotatePartsStream_noop _ _ _ _ (.inr h2), rotSegRest_noop _ _ _ _ _ h2]; exact hinv
+      rw [rotatePartsStream_noop _ _ _ _ (.inr h2), rotSegRest_noop _ _ _ _ _ h2]; exact .rfl' hinv
     | some seg =>
       have hps := hinv.both si hsi (by rw [h2]; rfl)
       obtain ⟨part, h1⟩ := Option.isSome_iff_exists.mp hps
       obtain ⟨hc, hl, hoth, hlook, hv, hN, hseg1, _⟩ :=
         rotP_vinv st si d false part seg hinv.ll hsi h1 h2 (hinv.streams si hsi)
       obtain ⟨seg1, hs1⟩ := Option.isSome_iff_exists.mp hseg1
-      obtain ⟨hc2, hl2, hoth2, hlook2, hv2, hb2⟩ :=
+      obtain ⟨hc2, hl2, hoth2, hlook2, hv2, hb2, hs2⟩ :=
         rotSegRest_vinv (rotatePartsStream st si d false) si d n f seg1 (by rw [hc]; exact hinv.ll)
           (by rw [hc]; exact hinv.cnt) (by rw [hl]; exact hsi) hs1 hN hv
-      exact Inv.frame si hinv (hc2.trans hc) (hl2.trans hl)
+      refine ⟨Inv.frame si hinv (hc2.trans hc) (hl2.trans hl)
         (fun j hj => (hoth2 j hj).trans (hoth j hj))
         (fun sj id hsj => (hlook2 sj id hsj).trans (hlook sj id hsj))
-        (fun _ => ⟨hv2, fun _ => hb2⟩)
+        (fun _ => ⟨hv2, fun _ => hb2⟩), hc2.trans hc, hl2.trans hl, fun j => ?_⟩
+      by_cases e : j = si
+      · subst e; rw [hs2, h2]; rfl
+      · rw [hoth2 j e, hoth j e]
   · have hd := stream_oob_default st si (Nat.le_of_not_lt hsi)
     have h2 : (st.stream si).nextSegment = none := by rw [hd]
-    rw [rotatePartsStream_noop _ _ _ _ (.inr h2), rotSegRest_noop _ _ _ _ _ h2]; exact hinv
+    rw [rotatePartsStream_noop _ _ _ _ (.inr h2), rotSegRest_noop _ _ _ _ _ h2]; exact .rfl' hinv
 
-theorem steps_inv {a b : State} (h : Steps a b) (ha : Inv a) : Inv b := by
+/-- `createFirstSegment` (all streams) -/
+theorem createAll_keeps (st : State) (d n : Int) (hinv : Inv st) :
+    Inv (createFirstSegment st d n) ∧ (createFirstSegment st d n).cfg = st.cfg ∧
+    (createFirstSegment st d n).streams.length = st.streams.length ∧
+    (∀ j, j < st.streams.length → ((createFirstSegment st d n).stream j).nextSegment.isSome) ∧
+    (createFirstSegment st d n).paths = st.paths := by
+  unfold createFirstSegment
+  have key : ∀ (l : List Nat) (st1 : State), Inv st1 → st1.cfg = st.cfg → st1.streams.length = st.streams.length →
+      st1.paths = st.paths →
+      let r := l.foldl (fun st si => createFirstSegmentStream st si d n) st1
+      Inv r ∧ r.cfg = st.cfg ∧ r.streams.length = st.streams.length ∧ r.paths = st.paths ∧
+      (∀ j, j < st.streams.length → (j ∈ l ∨ (st1.stream j).nextSegment.isSome) → (r.stream j).nextSegment.isSome) := by
+    intro l
+    induction l with
+    | nil =>
+      intro st1 h1 h2 h3 h4
+      exact ⟨h1, h2, h3, h4, fun j _ hj => by rcases hj with hj | hj; cases hj; exact hj⟩
+    | cons a l ih =>
+      intro st1 h1 h2 h3 h4
+      obtain ⟨hc, hp, hl, hoth, hview⟩ := createFirstSegmentStream_obs st1 a d n h1.ll
+      have := ih (createFirstSegmentStream st1 a d n) (create_inv st1 a d n h1) (hc.trans h2) (hl.trans h3) (hp.trans h4)
+      obtain ⟨r1, r2, r3, r4, r5⟩ := this
+      refine ⟨r1, r2, r3, r4, fun j hj hm => ?_⟩
+      apply r5 j hj
+      by_cases e : j = a
+      · subst e
+        right
+        rw [← view_openSeg_isSome, hview (by rw [h3]; exact hj)]; rfl
+      · rcases hm with hm | hm
+        · rcases List.mem_cons.mp hm with rfl | hm
+          · exact absurd rfl e
+          · exact .inl hm
+        · right; rw [hoth j e]; exact hm
+  obtain ⟨r1, r2, r3, r4, r5⟩ := key (List.range st.streams.length) st hinv rfl rfl rfl
+  exact ⟨r1, r2, r3, fun j hj => r5 j hj (.inl (List.mem_range.mpr hj)), r4⟩
+
+/-- `Inv` plus: the leading track's stream exists, and no stream has an open segment unless the
+    leading one has (so that `createFirstSegment` only ever runs when no stream has one). -/
+structure InvU (st : State) : Prop where
+  inv : Inv st
+  lead : leadingIdx st.cfg.tracks < st.streams.length
+  uni : ∀ i, (st.stream i).nextSegment.isSome → (st.stream (leadingIdx st.cfg.tracks)).nextSegment.isSome
+
+theorem InvU.of_keeps {st st' : State} (h : InvU st) (k : Keeps st st') : InvU st' := by
+  refine ⟨k.inv, by rw [k.cfg, k.len]; exact h.lead, fun i hi => ?_⟩
+  rw [k.cfg, k.pres]
+  rw [k.pres] at hi
+  exact h.uni i hi
+
+theorem steps_invU {a b : State} (h : Steps a b) (ha : InvU a) : InvU b := by
   induction h with
   | refl => exact ha
-  | same _ hs ih => exact Inv.of_same hs ih
-  | create si d n _ ih => exact create_inv _ si d n ih
-  | rotP si d _ ih => exact rotP_inv _ si d ih
-  | rotS si d n f _ ih => exact rotS_inv _ si d n f ih
+  | same _ hs ih =>
+    refine ⟨Inv.of_same hs ih.inv, by rw [hs.cfg, hs.len]; exact ih.lead, fun i hi => ?_⟩
+    rw [hs.cfg, ← view_openSeg_isSome, hs.view, view_openSeg_isSome]
+    rw [← view_openSeg_isSome, hs.view, view_openSeg_isSome] at hi
+    exact ih.uni i hi
+  | createAll d n _ _ ih =>
+    obtain ⟨h1, h2, h3, h4, _⟩ := createAll_keeps _ d n ih.inv
+    refine ⟨h1, by rw [h2, h3]; exact ih.lead, fun i _ => ?_⟩
+    rw [h2]
+    exact h4 _ ih.lead
+  | rotP si d _ ih => exact ih.of_keeps (rotP_keeps _ si d true rfl ih.inv)
+  | rotS si d n f _ ih => exact ih.of_keeps (rotS_keeps _ si d n f ih.inv)
+
+theorem steps_inv {a b : State} (h : Steps a b) (ha : InvU a) : Inv b := (steps_invU h ha).inv
 
 /-! ## the initial state -/
 
@@ -425,8 +503,27 @@ theorem start_inv (cfg0 : Cfg) (st0 : State) (hll : cfg0.variant = .ll) (h : sta
     rw [← view_openSeg_isSome, this]
     intro h0; cases h0
 
-theorem run_inv (cfg0 : Cfg) (st0 : State) (ops : List WriteOp) (hll : cfg0.variant = .ll)
-    (h : start cfg0 = .ok st0) : Inv (run st0 ops) :=
-  steps_inv (run_steps st0 ops) (start_inv cfg0 st0 hll h)
+theorem leadingIdx_lt (ts : List TrackCfg) (h : ts ≠ []) : leadingIdx ts < ts.length := by
+  unfold leadingIdx
+  split
+  · rename_i i hi
+    exact (List.findIdx?_eq_some_iff_findIdx_eq.mp hi).1
+  · exact List.length_pos_iff.mpr h
+
+theorem start_invU (cfg0 : Cfg) (st0 : State) (hll : cfg0.variant = .ll) (h : start cfg0 = .ok st0) : InvU st0 := by
+  have hinv := start_inv cfg0 st0 hll h
+  obtain ⟨hc, hcnt, hs, hp⟩ := start_shape cfg0 st0 hll h
+  have hne : cfg0.withDefaults.tracks ≠ [] := by
+    intro he
+    unfold start at h
+    simp [he] at h
+  refine ⟨hinv, ?_, ?_⟩
+  · rw [hc, hs]; simp only [List.length_map, List.length_range]; exact leadingIdx_lt _ hne
+  · intro i hi
+    exfalso
+    by_cases hil : i < st0.streams.length
+    · have : i < cfg0.withDefaults.tracks.length := by rw [hs] at hil; simpa using hil
+      simp [State.stream, hs, List.getD_eq_getElem?_getD, this] at hi
+    · rw [stream_oob_default _ _ (Nat.le_of_not_lt hil)] at hi; cases hi
 
 end Hls.Muxer
